@@ -313,6 +313,12 @@ func run(ctx *Ctx) *Result {
 	// 2. the matrix: every position x every kind
 	var cases []CaseIn
 	for i, s := range scens {
+		if blOut[i].Exit != 0 || blOut[i].Panic != "" {
+			if e := envClass(bl[i], blOut[i]); e != "" {
+				res.Count("scenario_skipped_no_reference_run:" + e) // the length of the dialogue is not known
+				continue
+			}
+		}
 		n := len(blOut[i].Lines)
 		if n > 0 && blOut[i].Lines[n-1] == "exit" {
 			n--
@@ -359,14 +365,95 @@ func runBaselines(res *Result, cases []CaseIn, nw int) []CaseOut {
 		res.CountN("baseline_rerun", len(again))
 		var cs []CaseIn
 		for _, i := range again {
-			cs = append(cs, cases[i])
+			c := cases[i]
+			c.TScale = rerunScale
+			cs = append(cs, c)
 		}
-		os2 := runAll(cs, 2)
+		os2 := runAll(cs, 1) // serially, with long time-outs
 		for k, i := range again {
 			outs[i] = os2[k]
 		}
 	}
 	return outs
+}
+
+// ---------------------------------------------------------------- environment failures
+//
+// The real code runs in worker processes with a pty per console session and 1 s / 3 s time-outs
+// while many other checks use the machine.  What the ENVIRONMENT does to a run is not a statement
+// about the code: a run that could not get a pty, a worker that died, a time-out although the
+// simulated device was not told to be silent.  Such a case is INCONCLUSIVE: it is run again
+// serially with time-outs x rerunScale; only what shows again there is reported.
+
+const rerunScale = 5
+
+// envClass: "" or why the outcome of the run says nothing about the code under test
+func envClass(c CaseIn, o CaseOut) string {
+	all := strings.ToLower(o.Panic + "\n" + o.Stderr + "\n" + o.Log + "\n" + o.Stdout)
+	if strings.Contains(o.Panic, "worker died") || strings.Contains(o.Panic, "bad case json") {
+		return "worker_died"
+	}
+	for _, m := range []string{"/dev/ptmx", "no space left on device", "resource temporarily unavailable",
+		"too many open files", "cannot allocate memory", "fork/exec", "out of memory"} {
+		if strings.Contains(all, m) {
+			return "resources"
+		}
+	}
+	for _, m := range []string{"timer expired", "client.timeout exceeded", "i/o timeout", "deadline exceeded", "handshake timeout"} {
+		if strings.Contains(all, m) {
+			silenced := (c.FaultKind == "silence" || c.FaultKind == "truncated") && o.FaultAt >= 0
+			if !silenced {
+				return "timeout_without_injected_silence"
+			}
+		}
+	}
+	return ""
+}
+
+// scaleFor: time-out factor for the parallel phase from how long fault-free compare runs take here
+// (≈ 0.1–0.3 s on an idle machine)
+func scaleFor(outs []CaseOut) int {
+	var ms []int64
+	for _, o := range outs {
+		if o.WallMs > 0 {
+			ms = append(ms, o.WallMs)
+		}
+	}
+	if len(ms) == 0 {
+		return 1
+	}
+	sort.Slice(ms, func(i, j int) bool { return ms[i] < ms[j] })
+	switch med := ms[len(ms)/2]; {
+	case med > 2500:
+		return 4
+	case med > 900:
+		return 2
+	}
+	return 1
+}
+
+// runSerial: one worker, one case after the other, until the deadline; done[i] says whether case i was run
+func runSerial(cases []CaseIn, deadline time.Time) ([]CaseOut, []bool) {
+	outs := make([]CaseOut, len(cases))
+	done := make([]bool, len(cases))
+	if len(cases) == 0 {
+		return outs, done
+	}
+	w := startWorker()
+	defer func() { w.stop() }()
+	for i, c := range cases {
+		if time.Now().After(deadline) {
+			break
+		}
+		o, err := w.run(c)
+		if err != nil {
+			o = CaseOut{Exit: 2, Panic: "worker died: " + err.Error(), FaultAt: -1}
+			w.stop()
+			w = startWorker()
+		}
+		outs[i], done[i] = o, true
+	}
+	return outs, done
 }
 
 type finding struct {
@@ -433,11 +520,32 @@ func evalCases(ctx *Ctx, res *Result, drv *Nadrv, cases []CaseIn, nw int, verbos
 		}
 		res.CountN("baseline_rerun", len(again))
 		for _, i := range again {
-			po2[i] = runAll([]CaseIn{pc2[i]}, 1)[0]
+			c := pc2[i]
+			c.TScale = rerunScale
+			po2[i] = runAll([]CaseIn{c}, 1)[0]
 		}
 	}
 	for i, id := range pk2 {
 		pl[id].e, pl[id].eIpt = planPackets(pc2[i].Scen.Backend, po2[i].CmpLog)
+	}
+	// a scenario whose fault-free reference run could not be had (no pty, time-outs even serially
+	// with long time-outs) has no script to hand to the model: all its cases are inconclusive.
+	// (A reference run that fails for a reason the environment does not explain is kept: then the
+	// model and the oracle judge what the code did.)
+	envScen := map[string]string{}
+	for i, id := range pk {
+		if po[i].Exit != 0 || po[i].Panic != "" {
+			if e := envClass(pc[i], po[i]); e != "" {
+				envScen[id] = e
+			}
+		}
+	}
+	for i, id := range pk2 {
+		if po2[i].Exit != 0 || po2[i].Panic != "" {
+			if e := envClass(pc2[i], po2[i]); e != "" {
+				envScen[id] = e
+			}
+		}
 	}
 
 	judge := func(c CaseIn, o CaseOut) judgement {
@@ -527,32 +635,98 @@ func evalCases(ctx *Ctx, res *Result, drv *Nadrv, cases []CaseIn, nw int, verbos
 		return j
 	}
 
+	// time-outs of the parallel phase follow the speed of this machine now
+	base := scaleFor(po)
+	res.Count(fmt.Sprintf("timeout_scale_parallel:%d", base))
+	for i := range cases {
+		if cases[i].TScale == 0 && base > 1 {
+			cases[i].TScale = base
+		}
+	}
 	outs := runAll(cases, nw)
 	js := make([]judgement, len(cases))
 	for i, c := range cases {
 		js[i] = judge(c, outs[i])
 	}
-	// what looks wrong is run again, alone: the scenarios use 1-second timeouts and this machine is
-	// shared; a defect of the code under test shows every time
-	for attempt := 0; attempt < 2; attempt++ {
-		var again []int
-		for i := range cases {
-			if js[i].bad() {
-				again = append(again, i)
+	// What looks wrong is run again SERIALLY with long time-outs (the machine is shared, a pty or a
+	// process slot may have been missing, a 1 s time-out may have struck): a defect of the code
+	// under test shows again, an accident of the environment does not.  Cases whose outcome is
+	// explained by the environment are re-run last; the re-run has a wall budget; a case that
+	// could not be re-run, or whose re-run failed for lack of resources again, is inconclusive if
+	// the environment explains its outcome and is reported as it is otherwise.
+	inconclusive := map[int]string{}
+	var suspects []int
+	for i := range cases {
+		if e, ok := envScen[cases[i].Scen.ID]; ok {
+			inconclusive[i] = "no_reference_run:" + e
+		} else if js[i].bad() {
+			suspects = append(suspects, i)
+		}
+	}
+	if len(suspects) > 0 {
+		sort.SliceStable(suspects, func(a, b int) bool {
+			return envClass(cases[suspects[a]], outs[suspects[a]]) == "" && envClass(cases[suspects[b]], outs[suspects[b]]) != ""
+		})
+		budget := 25 * time.Second
+		if ctx.Thorough() {
+			budget = 240 * time.Second
+		}
+		if ctx.Replay != "" {
+			budget = 120 * time.Second
+		}
+		deadline := time.Now().Add(budget)
+		res.CountN("suspect_first_run", len(suspects))
+		pending := suspects
+		for round, scale := range []int{rerunScale, 2 * rerunScale} {
+			if len(pending) == 0 {
+				break
 			}
-		}
-		if len(again) == 0 || len(again) > 60 {
-			break
-		}
-		res.CountN("rerun_of_suspect_case", len(again))
-		var cs []CaseIn
-		for _, i := range again {
-			cs = append(cs, cases[i])
-		}
-		os2 := runAll(cs, 2)
-		for k, i := range again {
-			outs[i] = os2[k]
-			js[i] = judge(cases[i], os2[k])
+			var cs []CaseIn
+			for _, i := range pending {
+				c := cases[i]
+				c.TScale = scale
+				cs = append(cs, c)
+			}
+			os2, done := runSerial(cs, deadline)
+			var next []int
+			for k, i := range pending {
+				first := envClass(cases[i], outs[i])
+				if !done[k] {
+					// no budget left.  Never re-run: inconclusive if the environment explains the
+					// outcome, else reported as it is.  Re-run once already (bad with 5 s / 15 s,
+					// alone on a worker): reported in that form.
+					if round == 0 && first != "" {
+						inconclusive[i] = first + "/not_rerun"
+					}
+					continue
+				}
+				res.Count("rerun_serial")
+				j2 := judge(cs[k], os2[k])
+				if !j2.bad() {
+					if first == "" {
+						first = "unexplained"
+					}
+					res.Count("first_run_not_reproduced:" + first)
+					outs[i], js[i] = os2[k], j2
+					delete(inconclusive, i)
+					continue
+				}
+				switch e2 := envClass(cs[k], os2[k]); {
+				case e2 == "resources" || e2 == "worker_died":
+					inconclusive[i] = e2
+					next = append(next, i)
+				case e2 != "" && round == 0:
+					// a time-out with 5 s / 15 s, serially: once more with 10 s / 30 s; a time-out that
+					// shows three times, the last two alone on a worker, is the code's
+					outs[i], js[i] = os2[k], j2
+					next = append(next, i)
+				default:
+					// reproduced with long time-outs, alone on a worker: reported, in the form that reproduces
+					outs[i], js[i] = os2[k], j2
+					delete(inconclusive, i)
+				}
+			}
+			pending = next
 		}
 	}
 
@@ -564,6 +738,14 @@ func evalCases(ctx *Ctx, res *Result, drv *Nadrv, cases []CaseIn, nw int, verbos
 		kind := c.FaultKind
 		if kind == "" {
 			kind = "-"
+		}
+		if why, ok := inconclusive[i]; ok {
+			// says nothing about the code: neither an evaluation nor a disagreement
+			res.Count("inconclusive:" + why)
+			if verbose {
+				fmt.Fprintf(os.Stderr, "INCONCLUSIVE (%s): %s\n", why, j.impl)
+			}
+			continue
 		}
 		canon := fmt.Sprintf("%s|%s|%d|%s", c.Scen.ID, c.Tool, c.FaultPos, c.FaultKind)
 		res.Eval(canon, c.FaultPos >= 0 || p.g > 0 || p.gIpt)
